@@ -317,7 +317,7 @@ impl OperationHandbook {
     }
     fn normalize(mnemonic: &str) -> String {
         match mnemonic.len() > 3 {
-            true => mnemonic[0..3].to_lowercase(),
+            true => mnemonic.chars().take(3).collect::<String>().to_lowercase(),
             false => mnemonic.to_lowercase()
         }
     }
